@@ -78,6 +78,15 @@ theorem erb_call [LtTest α] :
 /-- `gammatone_erb_constants(n)`: `tnt`, the factorial quotient and the 3 dB constant -/
 theorem gammatone_erb_constants : (Gen.C13.gammatone_erb_constants : Nat → α × α) = gammatoneErbConstants := rfl
 
+/-- `gammatone.sampled`: `A`, the two coefficient lists, the `.diff(n=eta-1, mul_after=-z)` loop (`diffNum`: `eta - 1`
+steps of `diffStep`, the body of `ZFilter.diff`), the two normalisations by the measured gain, the cascade -/
+theorem gammatone_sampled [ZeroTest α] :
+    (Gen.C13.gammatone_sampled : α → α → α → Nat → List (Coefs α)) = gammatoneSampled := rfl
+
+/-- the defaults `phase=0, eta=4` of the `def` line -/
+theorem gammatone_sampled_call [ZeroTest α] :
+    (Gen.C13.gammatone_sampled_call : α → α → Option α → Option Nat → List (Coefs α)) = gammatoneSampledCall := rfl
+
 end scalar
 
 end ALV.C13.Src
